@@ -368,7 +368,7 @@ def case_of_line(trace, cases, line_no):
         for i, line in enumerate(f, 1):
             if i > line_no:
                 break
-            if line.startswith('{"ev":"reset"'):
+            if line.startswith('{"ev":"reset"') or line.startswith('{"ev":"greset"') or line.startswith('{"ev":"xreset"'):
                 cid = json.loads(line).get('id')
     pool = None
     with open(cases) as f:
@@ -510,7 +510,8 @@ def run_check(prop, tier, seed):
                 log('  CLASS %6d %s %s' % (v, k, json.dumps(exm[k]['m'])[:700]))
                 if os.environ.get('VERIF_DEBUG') == '2':
                     pool, case = case_of_line(exm[k]['trace'], exm[k]['cases'], exm[k]['m']['line'])
-                    log('      CASE ' + json.dumps({'cfg': case.get('cfg'), 'ops': [[o.get('op'), o.get('pat'), o.get('methods'), o.get('chain')] for o in case['ops']]})[:1500])
+                    if case:
+                        log('      CASE ' + json.dumps({'cfg': case.get('cfg'), 'ops': [[o.get('op'), o.get('inst'), o.get('pat'), o.get('methods'), o.get('chain'), o.get('m')] for o in case['ops']]})[:1500])
                     log('      EVENT ' + json.dumps(event_at(exm[k]['trace'], exm[k]['m']['line']))[:900])
         # ---- verdicts
         known = load_known()
